@@ -454,7 +454,8 @@ class Lexer:
 
     def match_control_line(self):
         match = self.match(
-            r"(?<=^)[\t ]*(%(?!%)|##)[\t ]*((?:(?:\\\r?\n)|[^\r\n])*)"
+            r"(?<=^)[\t ]*(%(?!%)|##)[\t ]*"
+            r"((?:(?:\\\r?\n)|[^\r\n]|\r(?!\n))*)"
             r"(?:\r?\n|\Z)",
             re.M,
         )
